@@ -157,7 +157,7 @@ def main(tier):
     ev = json.load(open(common.EVIDENCE_DIR / "C12.json"))
     rc2 = e2prop.run_property(
         PID, tier, e2_scenarios(tier), e2_oracle,
-        rule=ev["coverage"]["rule"], assumptions=ev["assumptions"], budget_s=35 if tier == "quick" else 1800,
+        rule=ev["coverage"]["rule"], assumptions=ev["assumptions"], budget_s=600 if tier == "quick" else 3000,
         extra={"e1": {k: ev["coverage"][k] for k in ("states", "transitions", "traces_validated_against_impl", "worlds",
                                                     "oracle_counters", "distinct_observed_outcomes")},
                "e1_violations": ev.get("violations", 0)})
